@@ -968,10 +968,10 @@ class Renderer:
         # somebody's dependency before it is asked about itself)
         r = self.r if hasattr(self, "r") else self.rng
         opened = [s for s, _ in self.files if r.random() < 0.3]
-        qs = list(self.queries)
-        if r.random() < 0.5:
-            r.shuffle(qs)
-        return Case(self.files, qs, self.ws, self.table, opened)
+        # (the queries stay grouped by file, in file order: whether a forward reference inside a class resolves depends on
+        #  whether the file was analysed as a dependency before it was asked about itself - the listed finding
+        #  forward-method-in-chain - and the model fixes that order)
+        return Case(self.files, list(self.queries), self.ws, self.table, opened)
 
 
 def gen_case(rng, kinds):
